@@ -76,13 +76,16 @@ def reference(frames_pos, types, L, nvec):
     return cols, qn
 
 
-def one_case(ctx, rng, wd, K=None, mode=None):
+def one_case(ctx, rng, wd, K=None, mode=None, force_N=None):
     from PyMatterSim.static.sq import sq
     K = K or int(rng.choice([1, 2, 2, 3, 3, 4, 4, 5, 5, 6]))
     frames = int(rng.choice([1, 1, 2, 4]))
     d = int(rng.choice([2, 3]))
     retype = bool(frames > 1 and rng.random() < 0.35)
-    snaps, inf, cell = gc.static_system(rng, d=d, K=K, cellkind="ortho", frames=frames, nmin=max(2, K), nmax=60, retype=retype, big="xl" if ctx.thorough else True)
+    if force_N:
+        frames, retype = 1, False
+    snaps, inf, cell = gc.static_system(rng, d=d, K=K, N=force_N, cellkind="ortho", frames=frames, nmin=max(2, K), nmax=60, retype=retype,
+                                        big="xl" if ctx.thorough else True, poskind="gas" if force_N else None)
     L = np.diag(cell["H"]).copy()
     almost_cubic = False
     if (inf["N"] + frames + K) % 9 == 0:
@@ -268,6 +271,11 @@ def run(ctx):
     wd = fresh_dir("c04")
     if ctx.shard == 0:
         qset_probe(ctx)
+    if ctx.shard == 0 or ctx.thorough:
+        # systems far beyond the usual size: particles x wave vectors in the millions (block-wise evaluation boundaries)
+        for K_, m_ in ((2, "default"), (3, "explicit")):
+            one_case(ctx, ctx.rng(), wd, K=K_, mode=m_, force_N=int(ctx.rng().choice([6000, 9000])))
+            ctx.count("systems_over_5000_particles")
     n = ctx.n(300, 1500)
     for i in range(n):
         rng = ctx.rng()
